@@ -146,7 +146,14 @@ def ssh_main(host, cmd):
           threading.Thread(target=relay, args=(child.stderr, sys.stderr.buffer, False))]
     for t in ts:
         t.start()
-    threading.Thread(target=pump_stdin, daemon=True).start()
+    if plan.get('nokey'):
+        # the session is dropped before the key is handed over (the boss gave up, ssh lost the connection): the doer's stdin reaches its
+        # end while the doer is still waiting for the key - it must give up, not wait or spin
+        state['launch_fault'] = True
+        state['stdin_closed'] = True
+        close_child_stdin()
+    else:
+        threading.Thread(target=pump_stdin, daemon=True).start()
     for what in ('kill', 'stdin'):
         if plan.get(what):
             threading.Thread(target=watcher, args=(what,), daemon=True).start()
@@ -218,6 +225,8 @@ def scenario_build(sc, base):
         plan['launch'] = {'when': fl['when'], 'line': fl['line']}
     elif k == 'connect':
         plan['badport'] = True
+    elif k == 'nokey':
+        plan['nokey'] = True
     env['REMOTE_PLAN'] = json.dumps({HOST: plan})
     return [src, dest], env, e2e.fake_ssh_dir(base, SSH_WRAPPER)
 
@@ -270,7 +279,7 @@ def run_real(binary, sc, base, watchdog=WATCHDOG):
             st = json.load(open(os.path.join(base, 'status.json')))
             break
         except (OSError, ValueError):
-            if not r['timed_out'] and sc['fault']['kind'] not in ('launch', 'connect'):
+            if not r['timed_out'] and sc['fault']['kind'] not in ('launch', 'connect', 'nokey'):
                 time.sleep(0.01)
             else:
                 time.sleep(0.005)
@@ -366,7 +375,7 @@ def model_lines(sc, clean_cmds):
     cap = sc['capacity'] if sc.get('capacity') is not None else 100 * 1024 * 1024
     n = len(kinds)
     eplan, plans = '-', ['-']
-    if k in ('launch', 'connect'):
+    if k in ('launch', 'connect', 'nokey'):
         return []
     if k == 'err':
         pos = None
@@ -434,6 +443,8 @@ def gen(tier, clean):
                 yield {'side': side, 'files': FILES, 'capacity': None, 'fault': {'kind': 'launch', 'when': when, 'line': line}}
         # the launch succeeds but the TCP connection to the announced port cannot be made (the doer sits in accept(), its stdin held by the boss)
         yield {'side': side, 'files': FILES, 'capacity': None, 'fault': {'kind': 'connect'}}
+        # the doer's stdin ends before the key arrives
+        yield {'side': side, 'files': FILES, 'capacity': None, 'fault': {'kind': 'nokey'}}
 
 
 def work_done_before(obs, sc):
@@ -466,7 +477,7 @@ def fault_surely_happened(sc, obs):
     st = obs.get('status') or {}
     if k == 'none':
         return False
-    if k in ('launch', 'connect'):
+    if k in ('launch', 'connect', 'nokey'):
         return True if st.get('launch_fault') else None
     if k == 'kill':
         if not st.get('killed'):
@@ -585,7 +596,7 @@ def family(run, binary, jbin, tmp, only=None, workers=6):
     def void(sc, obs):
         # the launch itself did not come about (status 10 / 11 with not a single command logged, no fault of ours delivered): the machine was
         # too busy for the fake ssh or the connection - the scenario did not take place
-        return (sc['fault']['kind'] not in ('launch', 'connect') and obs['exit'] in (10, 11) and not obs['cmds'] and not obs['timed_out']
+        return (sc['fault']['kind'] not in ('launch', 'connect', 'nokey') and obs['exit'] in (10, 11) and not obs['cmds'] and not obs['timed_out']
                 and not (obs.get('status') or {}).get('killed') and not (obs.get('status') or {}).get('stdin_closed'))
 
     def one(sc):
